@@ -90,7 +90,7 @@ fn timeout_count(max_choice: u8) {
 }
 
 //@ harness: c06_timeout_count_q
-//@ property: C06
+//@ property: C06, C03
 //@ tier: quick
 //@ unwind: 8
 //@ unwindset: timeout_count:32
